@@ -63,7 +63,7 @@ func r16_1(c *Ctx) {
 	isFlag := func(v ssa.Value) bool { _, ok := isFieldLoad(v, "Session", "didUpgrade"); return ok }
 	var hdr *ssa.MapUpdate
 	var fl ssa.CallInstruction
-	eachInstr(du, func(in ssa.Instruction) {
+	eachInstrDeep(du, func(in ssa.Instruction) {
 		if mu, ok := in.(*ssa.MapUpdate); ok {
 			if call, ok := mu.Map.(*ssa.Call); ok && call.Call.IsInvoke() && call.Call.Method.Name() == "Header" && isResOf(call.Call.Value, s) {
 				hdr = mu
@@ -167,7 +167,7 @@ func globalStringSliceInit(P *Program, g *ssa.Global) ([]string, bool) {
 	}
 	var out []string
 	ok := false
-	eachInstr(init, func(in ssa.Instruction) {
+	eachInstrDeep(init, func(in ssa.Instruction) {
 		st, isSt := in.(*ssa.Store)
 		if !isSt || st.Addr != ssa.Value(g) {
 			return
@@ -211,7 +211,7 @@ func globalStringSliceInit(P *Program, g *ssa.Global) ([]string, bool) {
 		if fn == init {
 			continue
 		}
-		eachInstr(fn, func(in ssa.Instruction) {
+		eachInstrDeep(fn, func(in ssa.Instruction) {
 			if st, isSt := in.(*ssa.Store); isSt {
 				if st.Addr == ssa.Value(g) {
 					ok = false
@@ -236,7 +236,7 @@ func r16_2(c *Ctx) {
 			c.anchor(nm)
 			continue
 		}
-		eachInstr(fn, func(in ssa.Instruction) {
+		eachInstrDeep(fn, func(in ssa.Instruction) {
 			call, ok := in.(*ssa.Call)
 			if !ok {
 				return
@@ -318,7 +318,7 @@ func r16_3(c *Ctx) {
 	var up, gs *ssa.Call
 	var sub ssa.CallInstruction
 	var httpErrs []*ssa.Call
-	eachInstr(fn, func(in ssa.Instruction) {
+	eachInstrDeep(fn, func(in ssa.Instruction) {
 		if call, ok := isModCall(in, "Upgrade"); ok {
 			up = call
 		}
@@ -485,7 +485,7 @@ func r16_4(c *Ctx) {
 		if !inSSEPackage(f) || f.Synthetic != "" {
 			continue
 		}
-		eachInstr(f, func(in ssa.Instruction) {
+		eachInstrDeep(f, func(in ssa.Instruction) {
 			if call, ok := in.(*ssa.Call); ok && call.Call.StaticCallee() == nil && !call.Call.IsInvoke() {
 				if _, ok := isFieldLoad(call.Call.Value, "Server", "OnSession"); ok {
 					fn = f
@@ -506,7 +506,7 @@ func r16_4(c *Ctx) {
 	}
 	merged := sess == nil
 	if merged {
-		eachInstr(fn, func(in ssa.Instruction) {
+		eachInstrDeep(fn, func(in ssa.Instruction) {
 			if call, ok := isModCall(in, "Upgrade"); ok {
 				for _, r := range *call.Referrers() {
 					if e, ok := r.(*ssa.Extract); ok && e.Index == 0 {
@@ -523,7 +523,7 @@ func r16_4(c *Ctx) {
 	name := fnLabel(fn)
 	var clientOK, idOK, defOK bool
 	var topicsStores []*ssa.Store
-	eachInstr(fn, func(in ssa.Instruction) {
+	eachInstrDeep(fn, func(in ssa.Instruction) {
 		st, ok := in.(*ssa.Store)
 		if !ok {
 			return
@@ -549,7 +549,7 @@ func r16_4(c *Ctx) {
 	c.check(idOK, name+":last-event-id", P.pos(fn.Pos()), "LastEventID is the session's (parsed from the request)", "Subscription.LastEventID is not sess.LastEventID: resumption is ignored")
 	// OnSession call
 	var on *ssa.Call
-	eachInstr(fn, func(in ssa.Instruction) {
+	eachInstrDeep(fn, func(in ssa.Instruction) {
 		if call, ok := in.(*ssa.Call); ok && call.Call.StaticCallee() == nil && !call.Call.IsInvoke() {
 			if _, ok := isFieldLoad(call.Call.Value, "Server", "OnSession"); ok {
 				on = call
@@ -680,7 +680,7 @@ func r16_5(c *Ctx) {
 	} else {
 		// Header.Get idiom
 		var get *ssa.Call
-		eachInstr(fn, func(in ssa.Instruction) {
+		eachInstrDeep(fn, func(in ssa.Instruction) {
 			if call, ok := isStaticCall(in, "(net/http.Header).Get"); ok {
 				get = call
 			}
@@ -735,7 +735,7 @@ func r16_5(c *Ctx) {
 	c.check(stOK, name+":session-id", P.pos(fn.Pos()), "Session.LastEventID is the unset value or NewID's result", "Session.LastEventID is built without validation")
 	// Res = getResponseWriter(w) non-nil
 	var grw *ssa.Call
-	eachInstr(fn, func(in ssa.Instruction) {
+	eachInstrDeep(fn, func(in ssa.Instruction) {
 		if call, ok := isModCall(in, "getResponseWriter"); ok {
 			grw = call
 		}
@@ -763,7 +763,7 @@ func r16_6(c *Ctx) {
 	name := fnLabel(fn)
 	// type asserts in dominance order
 	var tas []*ssa.TypeAssert
-	eachInstr(fn, func(in ssa.Instruction) {
+	eachInstrDeep(fn, func(in ssa.Instruction) {
 		if ta, ok := in.(*ssa.TypeAssert); ok && ta.CommaOk {
 			tas = append(tas, ta)
 		}
@@ -821,7 +821,7 @@ func r16_6(c *Ctx) {
 	}
 	if f := P.Fn("(flusherWrapper).Flush"); f != nil {
 		good := false
-		eachInstr(f, func(in ssa.Instruction) {
+		eachInstrDeep(f, func(in ssa.Instruction) {
 			if call, ok := in.(*ssa.Call); ok && call.Call.IsInvoke() && call.Call.Method.Name() == "Flush" {
 				good = true
 			}
@@ -842,7 +842,7 @@ func r05_1(c *Ctx) {
 		return
 	}
 	var clientKeys []string
-	eachInstr(rr, func(in ssa.Instruction) {
+	eachInstrDeep(rr, func(in ssa.Instruction) {
 		if call, ok := isStaticCall(in, "(net/http.Header).Set", "(net/http.Header).Del"); ok {
 			if k, ok := constString(call.Call.Args[1]); ok {
 				clientKeys = append(clientKeys, k)
@@ -873,7 +873,7 @@ func r05_1(c *Ctx) {
 	du := P.Fn("(*Session).doUpgrade")
 	serverCT := ""
 	if du != nil {
-		eachInstr(du, func(in ssa.Instruction) {
+		eachInstrDeep(du, func(in ssa.Instruction) {
 			if mu, ok := in.(*ssa.MapUpdate); ok {
 				if a, ok := loadedFrom(mu.Value); ok {
 					if g, ok := a.(*ssa.Global); ok {
@@ -891,7 +891,7 @@ func r05_1(c *Ctx) {
 			continue
 		}
 		// DefaultValidator: compares contentType(...) with a constant
-		eachInstr(fn, func(in ssa.Instruction) {
+		eachInstrDeep(fn, func(in ssa.Instruction) {
 			b, ok := in.(*ssa.BinOp)
 			if !ok || (b.Op != token.NEQ && b.Op != token.EQL) {
 				return
@@ -906,7 +906,7 @@ func r05_1(c *Ctx) {
 			if !inSSEPackage(fn) {
 				continue
 			}
-			eachInstr(fn, func(in ssa.Instruction) {
+			eachInstrDeep(fn, func(in ssa.Instruction) {
 				b, ok := in.(*ssa.BinOp)
 				if !ok || (b.Op != token.NEQ && b.Op != token.EQL) {
 					return
@@ -931,7 +931,7 @@ func r05_1(c *Ctx) {
 	cn := P.Fn("(*Connection).Connect")
 	if cn != nil {
 		acc := false
-		eachInstr(cn, func(in ssa.Instruction) {
+		eachInstrDeep(cn, func(in ssa.Instruction) {
 			if call, ok := isStaticCall(in, "(net/http.Header).Set"); ok {
 				k, _ := constString(call.Call.Args[1])
 				v, _ := constString(call.Call.Args[2])
@@ -957,7 +957,7 @@ func r20_1(c *Ctx) {
 		return
 	}
 	fwd := false
-	eachInstr(pb, func(in ssa.Instruction) {
+	eachInstrDeep(pb, func(in ssa.Instruction) {
 		if call, ok := isStaticCall(in, "(*bufio.Scanner).Buffer"); ok {
 			_, recvOK := isFieldLoad(call.Call.Args[0], "parser.Parser", "inputScanner")
 			if recvOK && call.Call.Args[1] == ssa.Value(pb.Params[1]) && call.Call.Args[2] == ssa.Value(pb.Params[2]) {
@@ -969,13 +969,13 @@ func r20_1(c *Ctx) {
 	// New: scanner created with the split function, stored as inputScanner
 	var sc *ssa.Call
 	splitOK, storeOK := false, false
-	eachInstr(nw, func(in ssa.Instruction) {
+	eachInstrDeep(nw, func(in ssa.Instruction) {
 		if call, ok := isStaticCall(in, "bufio.NewScanner"); ok && call.Call.Args[0] == ssa.Value(nw.Params[0]) {
 			sc = call
 		}
 	})
 	if sc != nil {
-		eachInstr(nw, func(in ssa.Instruction) {
+		eachInstrDeep(nw, func(in ssa.Instruction) {
 			if call, ok := isStaticCall(in, "(*bufio.Scanner).Split"); ok && call.Call.Args[0] == ssa.Value(sc) {
 				if f, ok := stripConvAll(call.Call.Args[1]).(*ssa.Function); ok && f == P.Fn("parser.splitFunc") {
 					splitOK = true
@@ -995,14 +995,14 @@ func r20_1(c *Ctx) {
 		c.anchor("Read")
 	} else {
 		var pf *ssa.Function
-		eachInstr(rdf, func(in ssa.Instruction) {
+		eachInstrDeep(rdf, func(in ssa.Instruction) {
 			if mc, ok := in.(*ssa.MakeClosure); ok {
 				pf, _ = mc.Fn.(*ssa.Function)
 			}
 		})
 		good := false
 		if pf != nil {
-			eachInstr(pf, func(in ssa.Instruction) {
+			eachInstrDeep(pf, func(in ssa.Instruction) {
 				call, ok := isModCall(in, "(*parser.Parser).Buffer")
 				if !ok {
 					return
@@ -1013,11 +1013,8 @@ func r20_1(c *Ctx) {
 				}
 				isMax := func(v ssa.Value) bool { _, ok := isFieldLoad(v, "ReadConfig", "MaxEventSize"); return ok }
 				g := false
-				for _, ifi := range ifsIn(pf) {
-					op, k, succ, ok := cmpConstEdge(ifi, isMax)
-					if ok && op == token.GTR && k == 0 && edgeDominates(ifi.Block(), succ, call.Block()) {
-						g = true
-					}
+				if intGuard(pf, call.Block(), isMax, negInf, 1, posInf) {
+					g = true
 				}
 				// the parser it is applied to is the one returned
 				retOK := false
@@ -1040,7 +1037,7 @@ func r20_1(c *Ctx) {
 		return
 	}
 	stB, stM := false, false
-	eachInstr(cb, func(in ssa.Instruction) {
+	eachInstrDeep(cb, func(in ssa.Instruction) {
 		if st, ok := in.(*ssa.Store); ok {
 			if _, ok := isFieldSel(st.Addr, "Connection", "buf"); ok && st.Val == ssa.Value(cb.Params[1]) {
 				stB = true
@@ -1063,7 +1060,7 @@ func r20_1(c *Ctx) {
 	good := false
 	if crd != nil {
 		for _, af := range crd.AnonFuncs {
-			eachInstr(af, func(in ssa.Instruction) {
+			eachInstrDeep(af, func(in ssa.Instruction) {
 				call, ok := isModCall(in, "(*parser.Parser).Buffer")
 				if !ok {
 					return
@@ -1083,9 +1080,13 @@ func r20_1(c *Ctx) {
 					if s, ok := nilEdge(ifi, func(v ssa.Value) bool { _, ok := isFieldLoad(v, "Connection", "buf"); return ok }); ok {
 						_ = s
 					}
-					op, k, succ, ok := cmpConstEdge(ifi, func(v ssa.Value) bool { _, ok := isFieldLoad(v, "Connection", "bufMaxSize"); return ok })
-					if ok && op == token.GTR && k == 0 {
-						blocked[cfgEdge{ifi.Block(), 1 - succ}] = true
+					// paths on which bufMaxSize <= 0 was established are not "a maximum is configured"
+					if lo, hi, okE, ok := intEdgeSets(ifi, func(v ssa.Value) bool { _, ok := isFieldLoad(v, "Connection", "bufMaxSize"); return ok }, negInf); ok {
+						for e := 0; e < 2; e++ {
+							if okE[e] && hi[e] <= 0 && lo[e] <= hi[e] {
+								blocked[cfgEdge{ifi.Block(), e}] = true
+							}
+						}
 					}
 				}
 				skip := false
@@ -1171,25 +1172,13 @@ func r20_2(c *Ctx) {
 	if n == 0 {
 		c.bad(name+":token-return", P.pos(fn.Pos()), "splitFunc never returns a token")
 	}
-	// the scan loop exits only at the end of data or at a line break directly following a non-blank line
+	// the scan loop has an exit at the end of the data
 	if adv != nil {
+		atEnd, _ := scanPosEdges(fn, data)
 		ok := false
-		for _, l := range loopsOf(fn) {
-			for b := range l.Blocks {
-				for i, s := range b.Succs {
-					if l.Blocks[s] {
-						continue
-					}
-					ifi, isIf := b.Instrs[len(b.Instrs)-1].(*ssa.If)
-					if !isIf {
-						continue
-					}
-					_ = i
-					cnd := decodeIf(ifi)
-					if cnd.Y != nil && cnd.Op == token.EQL && (isLenOf(cnd.Y, data) || isLenOf(cnd.X, data)) {
-						ok = true
-					}
-				}
+		for e := range atEnd {
+			if len(loopsContaining(fn, e.From)) > 0 {
+				ok = true
 			}
 		}
 		c.check(ok, name+":scan-loop", P.pos(fn.Pos()), "the scan loop can stop at the end of the buffered data", "the scan loop has no exit at the end of the data")
@@ -1197,8 +1186,8 @@ func r20_2(c *Ctx) {
 	// empty input requests more data
 	emptyOK := false
 	for _, ifi := range ifsIn(fn) {
-		op, k, succ, ok := cmpConstEdge(ifi, func(v ssa.Value) bool { return isLenOf(v, data) })
-		if ok && op == token.EQL && k == 0 {
+		succ, ok := intEdge(ifi, func(v ssa.Value) bool { return isLenOf(v, data) }, 0, 0, 0)
+		if ok {
 			good := true
 			forward([]startPoint{atEdge(ifi.Block(), succ)}, func(in ssa.Instruction) searchAction {
 				if r, ok := in.(*ssa.Return); ok {
@@ -1258,11 +1247,8 @@ func r20_4(c *Ctx) {
 		name := fnLabel(fn) + ":need-more-data#" + itoa(i)
 		// justified by len(data) == 0 ...
 		empty := false
-		for _, ifi := range ifsIn(fn) {
-			op, kk, succ, ok := cmpConstEdge(ifi, func(v ssa.Value) bool { return isLenOf(v, data) })
-			if ok && op == token.EQL && kk == 0 && edgeDominates(ifi.Block(), succ, ret.Block()) {
-				empty = true
-			}
+		if intGuard(fn, ret.Block(), func(v ssa.Value) bool { return isLenOf(v, data) }, 0, 0, 0) {
+			empty = true
 		}
 		// ... or by (scanned position == len(data)) && !atEOF: every path to this return passes an edge
 		// that establishes the position reached the end of the buffer, and the return is under !atEOF
